@@ -322,6 +322,13 @@ example : renum [(5, []), (10, [])] 65530 0 10 = .error E.ifc := by decide +kern
 example : renum [(5, []), (10, [])] 65529 10 10 = .ok ⟨[(5, []), (65529, [])], [(10, 65529)], []⟩ := by decide +kernel
 example : refsBody [139, 32, 88, 231, 15, 167, 32, 137, 32, 14, 0, 0] = [0] := by decide +kernel
 example : refsBody [149, 32, 167, 32, 137, 32, 14, 0, 0] = [] := by decide +kernel
+/-- `ERROR 34:GOTO 50`, `ERROR 14`, `ERROR 143:GOSUB 50`: after a plain ERROR statement the scan goes on with the
+    byte right behind the ERROR token (position restored), so the constant's value byte (quote, jump-number lead,
+    REM) stays the payload of the 0F token -/
+example : refsBody [167, 32, 15, 34, 58, 137, 32, 14, 50, 0] = [50] := by decide +kernel
+example : refsBody [167, 32, 15, 14] = [] := by decide +kernel
+example : refsBody [167, 32, 15, 143, 58, 141, 32, 14, 50, 0] = [50] := by decide +kernel
+example : refsBody [167, 32, 15, 28, 58, 137, 32, 14, 5, 0] = [5] := by decide +kernel
 /-- a jump-token byte inside a string literal or after REM is not a reference -/
 example : refsBody [145, 32, 34, 14, 5, 0, 34, 58, 143, 14, 5, 0] = [] := by decide +kernel
 
